@@ -365,7 +365,10 @@ class Ctx:
             else:
                 self.nontrivial.add((name, hashlib.md5("\n".join(r).encode()).hexdigest()))
             if monitor:
-                err = monitor(lines, r)
+                try:
+                    err = monitor(lines, r)
+                except Exception as e:  # truncated / unparsable real output is itself a finding
+                    err = "monitor could not interpret the real output (%s: %s); output tail: %r" % (type(e).__name__, e, r[-3:])
                 if err:
                     stat["monitor_failures"] += 1
                     if stat["monitor_failures"] <= 3:
